@@ -378,6 +378,11 @@ func (c *Ctx) bin(op Op, a, b *Term) *Term {
 			if b.Val == mask(w) {
 				return a
 			}
+			// low-bit mask
+			if b.Val&(b.Val+1) == 0 {
+				k := bits.Len64(b.Val)
+				return c.ZExt(c.Extract(a, k-1, 0), w)
+			}
 		}
 		if a == b {
 			return a
@@ -426,12 +431,56 @@ func (c *Ctx) bin(op Op, a, b *Term) *Term {
 		if b.IsConst() && b.Val >= uint64(w) && op != OpAShr {
 			return c.BV(w, 0)
 		}
+		// shifts by a constant are extract/extend/concat (folds through concat, zext, masks)
+		if b.IsConst() && b.Val < uint64(w) {
+			k := int(b.Val)
+			switch op {
+			case OpLShr:
+				return c.ZExt(c.Extract(a, w-1, k), w)
+			case OpAShr:
+				return c.SExt(c.Extract(a, w-1, k), w)
+			case OpShl:
+				return c.Concat(c.Extract(a, w-1-k, 0), c.BV(k, 0))
+			}
+		}
 	case OpUDiv, OpSDiv:
 		if b.IsConst() && b.Val == 1 {
 			return a
 		}
+		// division by a power of two of a value whose sign bit is known clear
+		if b.IsConst() && b.Val != 0 && b.Val&(b.Val-1) == 0 && (op == OpUDiv || c.topBitZero(a)) && sext64(b.Val, w) > 0 {
+			k := bits.TrailingZeros64(b.Val)
+			return c.ZExt(c.Extract(a, w-1, k), w)
+		}
+	case OpURem, OpSRem:
+		if b.IsConst() && b.Val != 0 && b.Val&(b.Val-1) == 0 && (op == OpURem || c.topBitZero(a)) && sext64(b.Val, w) > 0 {
+			k := bits.TrailingZeros64(b.Val)
+			if k == 0 {
+				return c.BV(w, 0)
+			}
+			return c.ZExt(c.Extract(a, k-1, 0), w)
+		}
 	}
 	return c.mk(op, w, 0, "", a, b)
+}
+
+// topBitZero: is the most significant bit of t syntactically zero?
+func (c *Ctx) topBitZero(t *Term) bool {
+	switch t.Op {
+	case OpConst:
+		return t.Val>>(uint(t.W)-1) == 0
+	case OpZExt:
+		return t.Args[0].W < t.W
+	case OpConcat:
+		return c.topBitZero(t.Args[0])
+	case OpIte:
+		return c.topBitZero(t.Args[1]) && c.topBitZero(t.Args[2])
+	case OpBAnd:
+		return c.topBitZero(t.Args[0]) || c.topBitZero(t.Args[1])
+	case OpBOr:
+		return c.topBitZero(t.Args[0]) && c.topBitZero(t.Args[1])
+	}
+	return false
 }
 
 // constLeaves reports whether t is an ite tree (at most n nodes) whose leaves are all constants.
@@ -735,6 +784,9 @@ func (c *Ctx) Concat(hi, lo *Term) *Term {
 	}
 	if hi.IsConst() && hi.Val == 0 {
 		return c.ZExt(lo, w)
+	}
+	if hi.Op == OpExtract && lo.Op == OpExtract && hi.Args[0] == lo.Args[0] && int(hi.Val&0xff) == int(lo.Val>>8)+1 {
+		return c.Extract(hi.Args[0], int(hi.Val>>8), int(lo.Val&0xff))
 	}
 	return c.mk(OpConcat, w, 0, "", hi, lo)
 }
